@@ -142,6 +142,15 @@ def shuffleIdx {α} (x : Img α) (mask : Nat → Nat → Bool) (b0 b1 : Nat) (pa
   let p := prepare x mask b0 b1 padMode
   selected p.M b0 b1 (nBlocks p.N0 b0) (nBlocks p.N1 b1) part
 
+/-- **Memory layout.**  `view_as_blocks` starts with `np.ascontiguousarray(x)`: when the working array is not
+C-contiguous (a Fortran-ordered image in either mode - `np.pad` keeps Fortran order -, a strided view in in-place
+mode) the block "view" is a view of a *copy*, the assignment `blocks[idx] = blocks[nidx]` is lost and the array
+handed back is the unshuffled input.  `aliases` says whether the block view aliases the returned array; when it
+does not, the call behaves like the identity permutation `nidx = idx`. -/
+def shuffleBlocksLayout {α} (aliases : Bool) (x : Img α) (mask : Nat → Nat → Bool) (b0 b1 : Nat)
+    (padMode part : Bool) (nidx : List Nat) : Img α :=
+  shuffleBlocks x mask b0 b1 padMode part (if aliases then nidx else shuffleIdx x mask b0 b1 padMode part)
+
 /-! ### specification of a shuffle result, as a checkable relation between input and output -/
 
 def pixels (n0 n1 : Nat) : List (Nat × Nat) :=
